@@ -422,8 +422,9 @@ EXPLANATION = (
     'normalises to the spelling) with codecs_open_holds_trailing (noise and first-column comments are held back); translated_iff; regex_pins; witnesses of the repaired '
     'defects (trailing_ignored_comment_witness for ed9c45c, unescape_octal_fix for 9de4551). REFUTED by kernel-evaluated witnesses and recorded as OPEN findings, replayed on the real '
     'loader each run: load_spells_refuted (a continuation cut between the escaped bytes of one character is a syntax error), detect_first_match_refuted (the charset of the first line '
-    'matching polib\'s detect_encoding pattern wins, e.g. a comment). OUTSTANDING: load_spells with the charset DETECTED rather than given (detect_encoding on a header spelled on '
-    'one line is tied by the po-detect and end-to-end streams only); linenum is projected away. polib itself is third-party code '
+    'matching polib\'s detect_encoding pattern wins, e.g. a comment). detect_header + load_spells_detected_partial: polib.pofile(path) itself (detection, decode, Codecs.open, line loop) yields the '
+    'catalog when the first line matching polib\'s pattern is the header\'s "Content-Type: text/plain; charset=NAME line. OUTSTANDING: the file-side hypotheses of that theorem are not derived '
+    'from a rendering function CatalogSp -> bytes; other header forms are tied by po-detect only; linenum is projected away. polib itself is third-party code '
     'modelled by hand: its tie is the correspondence (transition table regenerated each run). Excluded spellings: msgstr[N] N>=10, octal above \\377, two string tokens on one line, '
     'translator comments of the first entry (they are the header comment).')
 
